@@ -1,5 +1,6 @@
 """C07 — train resistance forces equal their physical definitions at every position."""
 from common import *  # noqa
+from trainparts import train_parts_case  # noqa
 
 SC.add_wrapper("W_UpdateRes", [("res", "strap::Strap"), ("state", "TrainState"), ("path_tpc", "PathTpc")])
 G = 9.80154849496314  # uc::ACC_GRAV (gravity at the geographic centre of the contiguous US)
@@ -128,6 +129,13 @@ def rho(c):
 
 
 def m_cases(tier):
+    tp = [(1, False, False, True, False), (2, False, False, False, False), (2, True, False, True, True)] if tier == "quick" else \
+        [(nt, om, False, lm, cv) for nt in (1, 2, 3) for om in (False, True) for lm in (False, True) for cv in (False, True)]
+    cs0 = [train_parts_case(nt, om, ol, lm, cv, prop="C07") for (nt, om, ol, lm, cv) in tp]
+    return cs0 + _m_cases(tier)
+
+
+def _m_cases(tier):
     cs = update_res_cases(3, 2) + update_res_cases(4, 2) + update_res_cases(3, 2, "Bwd") + update_res_cases(2, 3, "Bwd") + update_res_cases(3, 2, "Unk")
     if tier == "thorough":
         for d in ("Fwd", "Bwd", "Unk"):
